@@ -360,8 +360,12 @@ def model_lines(cid, case, res):
     src = 'clean' if case['src'] == 'clean' else 'exc'
     cap = case['cap']
     pfl = ','.join(map(str, case['pf'])) if case['pre'] else ''
+    # if the hand-over to the pool could not be observed (the executor was created where the harness
+    # cannot shadow it) the driver infers `submit` like the other internal steps
+    evs = res['events']
+    obs_submit = int(any(e[0] == 'submit' for e in evs) or not any(e[0] == 'start' for e in evs))
     lines = [f'case {cid} n={case["n"]} cap={cap} conc={case["conc"]} rexc={int(case["rexc"])} '
-             f'src={src} pf={pfl} re={",".join(map(str, case["re"]))}']
+             f'src={src} pf={pfl} re={",".join(map(str, case["re"]))} obs_submit={obs_submit}']
     final = 0
     for e in res['events']:
         if e[0] == 'final':
